@@ -203,8 +203,9 @@ CLAIMED.update({
              'mutation vs a fresh subprocess.',
         note='For the dimension derived at write time (parameter / computation / calibration measurement) the model carries '
              'the derived-or-assigned state between checks and derived_dimension_history_independent proves that no check '
-             'depends on earlier ones. PARTIAL: other per-object state that survives a write (frame index attributes, '
-             'data registries, sticky cast dtype) has no theorem; covered by fresh-process / fresh-build oracles on '
+             'depends on earlier ones; likewise for the index attributes a frame derives from the rows of a write '
+             '(Model/FrameIdx.lean, derived_index_attributes_history_independent). PARTIAL: other per-object state that '
+             'survives a write (data registries, sticky cast dtype) has no theorem; covered by fresh-process / fresh-build oracles on '
              'generated histories. The compatibility flag is C17.',
         technique='Lean 4 proof (cache-coherence invariant over all histories) + correspondence + fresh-process oracle',
         design='§5 C14'),
